@@ -72,6 +72,32 @@ def scan():
             if _is_self_attr(n) and n.attr in methods and n.attr != name:
                 refs.add(n.attr)
         direct[name] = refs
+    # helpers in other chmpy modules that are handed the crystal itself (`from chmpy.ext.vasp import poscar_string; poscar_string(self, ...)`):
+    # the methods such a helper calls on its first parameter count as called by the Crystal method
+    for name, fn in methods.items():
+        imported = {}
+        for n in ast.walk(fn):
+            if isinstance(n, ast.ImportFrom) and n.module and n.module.startswith("chmpy."):
+                for a in n.names:
+                    imported[a.asname or a.name] = (n.module, a.name)
+        for n in ast.walk(fn):
+            if isinstance(n, ast.Call) and isinstance(n.func, ast.Name) and n.func.id in imported and n.args \
+                    and isinstance(n.args[0], ast.Name) and n.args[0].id == "self":
+                mod, fname = imported[n.func.id]
+                path = SRC.joinpath(*mod.split(".")[1:]).with_suffix(".py")
+                if not path.exists():
+                    path = SRC.joinpath(*mod.split(".")[1:], "__init__.py")
+                try:
+                    ht = ast.parse(path.read_text())
+                except OSError:
+                    raise TieBroken(f"Crystal.{name} hands the crystal to {mod}.{fname}, whose source was not found")
+                hf = next((h for h in ast.walk(ht) if isinstance(h, ast.FunctionDef) and h.name == fname), None)
+                if hf is None or not hf.args.args:
+                    raise TieBroken(f"Crystal.{name} hands the crystal to {mod}.{fname}, which was not found in {path.name}")
+                par = hf.args.args[0].arg
+                for h in ast.walk(hf):
+                    if isinstance(h, ast.Attribute) and isinstance(h.value, ast.Name) and h.value.id == par and h.attr in methods:
+                        direct[name].add(h.attr)
     fills = {}
     for name in methods:
         seen, todo = set(), [name]
